@@ -285,7 +285,9 @@ func TestC18(t *testing.T) {
 		evid.Replay(t, r, replayPath(), c18Check)
 		return
 	}
-	lvl := rapid.SampledFrom([]string{"a", "a", "b", "c"})
+	// "ab" / "ba" / "aa": levels that are string prefixes / suffixes of one another (seeded change C18-e: a '/#' fast path
+	// that compares string prefixes instead of levels)
+	lvl := rapid.SampledFrom([]string{"a", "a", "b", "c", "ab", "ba", "aa"})
 	genTopic := func(rt *rapid.T) string {
 		n := rapid.IntRange(1, 4).Draw(rt, "tdepth")
 		return strings.Join(rapid.SliceOfN(lvl, n, n).Draw(rt, "tlevels"), "/")
@@ -297,8 +299,15 @@ func TestC18(t *testing.T) {
 			k := rapid.IntRange(1, len(ls)).Draw(rt, "keep")
 			f := append([]string{}, ls[:k]...)
 			for i := range f {
-				if rapid.IntRange(0, 3).Draw(rt, "plus") == 0 {
+				switch rapid.IntRange(0, 7).Draw(rt, "plus") {
+				case 0, 1:
 					f[i] = "+"
+				case 2: // a level that is a proper string prefix / extension of the topic's level
+					if len(f[i]) > 1 {
+						f[i] = f[i][:1]
+					} else {
+						f[i] += "b"
+					}
 				}
 			}
 			switch rapid.IntRange(0, 3).Draw(rt, "tail") {
@@ -310,7 +319,7 @@ func TestC18(t *testing.T) {
 			return strings.Join(f, "/")
 		}
 		n := rapid.IntRange(1, 4).Draw(rt, "fdepth")
-		ls := rapid.SliceOfN(rapid.SampledFrom([]string{"a", "a", "b", "+"}), n, n).Draw(rt, "flevels")
+		ls := rapid.SliceOfN(rapid.SampledFrom([]string{"a", "a", "b", "+", "ab"}), n, n).Draw(rt, "flevels")
 		if rapid.IntRange(0, 3).Draw(rt, "hash") == 0 {
 			ls = append(ls, "#")
 		}
